@@ -45,6 +45,9 @@ def run():
     ck.cov['api_events_per_build'] = len(pa)
     ck.cov['evaluations'] = len(isa) + len(vml) + len(lines)
     ck.cov['distinct_nontrivial'] = len(set(isa)) + len(set(lines)) // 2
+    # the generic fallbacks must not keep process-wide state (a remembered rounding mode, a scratch buffer): per-call global-write footprint
+    from checks import c14
+    c14.portable_footprint(ck, os.path.join(wd, 'pfoot'))
     ck.cov['rule'] = 'same seeded samples as C05/C04 recorded from a second build of the same tree with -U__SSE2__ -U__SSE__ -U__AES__ -U__SIZEOF_INT128__ (generic fallbacks), validated against the same TLA+ oracle; API-level results of both builds must coincide event by event'
     ck.sample(isa[0][:500])
     ck.sample(pb[-1])
